@@ -88,18 +88,17 @@ Proof.
 Qed.
 
 (* ---------- Tree.collapse_basal_bifurcation ---------- *)
-Lemma addlen_try_supp keep del :
-  ~ (keep = None /\ del <> None) -> addlen_try keep del = addlen_supp keep del.
-Proof. destruct keep, del; simpl; intros H; try reflexivity; exfalso; apply H; split; [reflexivity | discriminate]. Qed.
+Lemma addlen_try_supp keep del : addlen_try keep del = addlen_supp keep del.
+Proof. destruct keep, del; reflexivity. Qed.
 
 (* keep the first child, dissolve the second *)
 Lemma collapse_second i x l e c0 i1 x1 l1 e1 K1 :
-  K1 <> [] -> ~ (t_len c0 = None /\ e1 <> None) ->
+  K1 <> [] ->
   NoDup (leaf_taxa (T i x l e [c0; T i1 x1 l1 e1 K1])) ->
   equivU (T i x l e [c0; T i1 x1 l1 e1 K1])
          (T i x l e (set_len (addlen_try (t_len c0) e1) c0 :: K1)).
 Proof.
-  intros HK HL ND. rewrite addlen_try_supp by assumption.
+  intros HK ND. rewrite addlen_try_supp.
   assert (S1 := rot_step i x l e [c0] i1 x1 l1 e1 K1 [] HK ltac:(discriminate) ND).
   cbn [app] in S1. eapply equivU_trans; [exact S1|].
   apply equivT_U.
@@ -112,18 +111,6 @@ Proof.
   - assumption.
 Qed.
 
-Lemma uniform_two i x l e c0 c1 :
-  uniform_lengths (T i x l e [c0; c1]) ->
-  ~ (t_len c0 = None /\ t_len c1 <> None) /\ ~ (t_len c1 = None /\ t_len c0 <> None).
-Proof.
-  unfold uniform_lengths, nonroot_lens. cbn [t_kids flat_map]. destruct c0 as [i0 x0 l0 e0 k0], c1 as [i1 x1 l1 e1 k1].
-  rewrite !all_lens_node, app_nil_r. cbn [t_len]. intros [H|H].
-  - inversion H; subst. apply Forall_app in H3. destruct H3 as [_ H3]. inversion H3; subst.
-    split; intros [A B]; congruence.
-  - inversion H; subst. apply Forall_app in H3. destruct H3 as [_ H3]. inversion H3; subst.
-    split; intros [A B]; congruence.
-Qed.
-
 Lemma collapse_basal_two i x l e c0 c1 :
   collapse_basal (T i x l e [c0; c1]) =
     if (2 <=? length (t_kids c1))%nat
@@ -134,12 +121,11 @@ Lemma collapse_basal_two i x l e c0 c1 :
 Proof. reflexivity. Qed.
 
 Lemma collapse_basal_equivU t t' did :
-  collapse_basal t = (t', did) -> NoDup (leaf_taxa t) -> uniform_lengths t -> equivU t t'.
+  collapse_basal t = (t', did) -> NoDup (leaf_taxa t) -> equivU t t'.
 Proof.
-  destruct t as [i x l e ks]. destruct ks as [|c0 [|c1 [|c2 r]]]; intros H ND U;
+  destruct t as [i x l e ks]. destruct ks as [|c0 [|c1 [|c2 r]]]; intros H ND;
     try (simpl in H; inversion H; subst; apply equivU_refl).
   rewrite collapse_basal_two in H.
-  destruct (uniform_two _ _ _ _ _ _ U) as [U1 U2].
   destruct (2 <=? length (t_kids c1))%nat eqn:E1.
   - inversion H; subst. destruct c1 as [i1 x1 l1 e1 K1]. cbn [t_kids t_len] in *.
     apply collapse_second; try assumption. apply Nat.leb_le in E1. destruct K1; [cbn in E1; lia | discriminate].
@@ -154,13 +140,13 @@ Proof.
       apply equivT_U. apply equivT_perm.
       * discriminate.
       * apply Permutation_cons_append.
-      * assert (S := collapse_second i x l e c1 i0 x0 l0 e0 K0 HK U2 ND1).
+      * assert (S := collapse_second i x l e c1 i0 x0 l0 e0 K0 HK ND1).
         apply (equivU_nodup _ _ S) in ND1. rewrite leaf_taxa_node in ND1 by discriminate. assumption.
     + inversion H; subst. apply equivU_refl.
 Qed.
 
 Lemma collapse_basal_leaf_nodup t t' did :
-  collapse_basal t = (t', did) -> NoDup (leaf_taxa t) -> uniform_lengths t -> NoDup (leaf_taxa t').
+  collapse_basal t = (t', did) -> NoDup (leaf_taxa t) -> NoDup (leaf_taxa t').
 Proof. intros. eapply equivU_nodup; [eapply collapse_basal_equivU; eauto | assumption]. Qed.
 
 (* ---------- a new node on the edge above h ---------- *)
